@@ -1397,9 +1397,11 @@ func ruleR02h(c *Ctx) {
 	}
 	// reference: the literal of the exported entry that sets a template (Execute)
 	var ref *lit
-	for i := range lits {
-		if lits[i].fd.Name.IsExported() && lits[i].fields["tmpl"] {
-			ref = &lits[i]
+	if holder, cl := entryStateLit(c); cl != nil {
+		for i := range lits {
+			if lits[i].fd == holder && lits[i].cl == cl {
+				ref = &lits[i]
+			}
 		}
 	}
 	if ref == nil {
@@ -1953,4 +1955,57 @@ func ruleR02n(c *Ctx) {
 	c.check(len(late) == 0, "R02n", "soyhtml.state.evalCall params-bound-last", loop.Pos(), "nothing is bound in the callee's scope after its explicit params",
 		"after the explicit params have been bound, evalCall binds more names in the callee's scope ("+strings.Join(late, ", ")+"): a name that is both a param and one of those is given the later value, so the callee does not see the param it was passed")
 	_ = latePos
+}
+
+// entryStateLit: the composite literal of soyhtml's state that an exported entry point builds for the
+// template it is asked to render: the literal that sets tmpl in the exported function itself, or else in the
+// nearest unexported helper it calls (newState and the like; at most two calls away). Returns the function
+// holding the literal.
+func entryStateLit(c *Ctx) (*ast.FuncDecl, *ast.CompositeLit) {
+	p := c.pkg("soyhtml")
+	if p == nil {
+		return nil, nil
+	}
+	info := p.TypesInfo
+	stObj := p.Types.Scope().Lookup("state")
+	if stObj == nil {
+		return nil, nil
+	}
+	litIn := func(fd *ast.FuncDecl) *ast.CompositeLit {
+		var out *ast.CompositeLit
+		ast.Inspect(fd.Body, func(x ast.Node) bool {
+			cl, ok := x.(*ast.CompositeLit)
+			if !ok {
+				return true
+			}
+			if tv, ok := info.Types[cl]; !ok || !types.Identical(tv.Type, stObj.Type()) {
+				return true
+			}
+			for _, el := range cl.Elts {
+				if kv, ok := el.(*ast.KeyValueExpr); ok {
+					if id, ok := kv.Key.(*ast.Ident); ok && id.Name == "tmpl" {
+						out = cl
+					}
+				}
+			}
+			return true
+		})
+		return out
+	}
+	for depth := 0; depth <= 2; depth++ {
+		for _, fd := range c.allFuncDecls("soyhtml") {
+			if !fd.Name.IsExported() || fd.Body == nil {
+				continue
+			}
+			for _, h := range c.withHelpers("soyhtml", fd, depth) {
+				if h != fd && h.Name.IsExported() {
+					continue
+				}
+				if cl := litIn(h); cl != nil {
+					return h, cl
+				}
+			}
+		}
+	}
+	return nil, nil
 }
